@@ -38,12 +38,27 @@ def sh(cmd, cwd=None, env=None, timeout=None):
 
 
 def build_harness():
+    """build the driver against the repository under test: /repo, or $VERIF_REPO (a scratch worktree, used by the
+    runners of the seeded / benign changes so that several can be judged at once without touching /repo)"""
+    global BUILD
+    repo = os.path.abspath(os.environ.get("VERIF_REPO", "/repo"))
+    src = HARNESS
+    if repo != "/repo":
+        BUILD = os.path.join(VERIF, "work", "build-%d" % os.getpid())
+        src = os.path.join(BUILD, "src")
+        shutil.rmtree(BUILD, ignore_errors=True)
+        os.makedirs(src)
+        for f in os.listdir(HARNESS):
+            if f.endswith(".go") or f == "go.mod":
+                shutil.copy(os.path.join(HARNESS, f), src)
+        gm = open(os.path.join(src, "go.mod")).read().replace("=> /repo", "=> " + repo)
+        open(os.path.join(src, "go.mod"), "w").write(gm)
     os.makedirs(BUILD, exist_ok=True)
-    shutil.copy(os.environ.get("VERIF_REPO", "/repo") + "/go.sum", os.path.join(HARNESS, "go.sum"))
-    rc, out = sh(["go", "build", "-tags", "verif", "-o", os.path.join(BUILD, "drive"), "."], cwd=HARNESS,
+    shutil.copy(repo + "/go.sum", os.path.join(src, "go.sum"))
+    rc, out = sh(["go", "build", "-tags", "verif", "-o", os.path.join(BUILD, "drive"), "."], cwd=src,
                  env=GOENV, timeout=1200)
     if rc != 0:
-        raise MachineryError("harness does not build against /repo:\n" + out[-3000:])
+        raise MachineryError("harness does not build against %s:\n" % repo + out[-3000:])
     return os.path.join(BUILD, "drive")
 
 
@@ -428,7 +443,14 @@ def run_replay(path):
         shutil.rmtree(workdir, ignore_errors=True)
 
 
+def _cleanup_build():
+    if BUILD.startswith(os.path.join(VERIF, "work")):
+        shutil.rmtree(BUILD, ignore_errors=True)
+
+
 def main():
+    import atexit
+    atexit.register(_cleanup_build)
     ap = argparse.ArgumentParser()
     ap.add_argument("prop", nargs="?")
     ap.add_argument("--tier", default=os.environ.get("VERIF_TIER", "quick"))
